@@ -29,7 +29,7 @@ ASSUMPTIONS = ["nvmon.ref exact reference for vertex positions (uv within 1e-12 
 FLOORS = {'quick': {'topology': 150, 'vertex-on-surface': 1500, 'quads': 100, 'trim-cells': 1000, 'obj': 60, 'off': 60, 'stl-ascii': 60,
                     'stl-binary': 60, 'container': 30},
           'thorough': {'topology': 1500, 'vertex-on-surface': 15000, 'trim-cells': 10000}}
-MANDATORY_TAGS = ['container:element-edited-after-mesh-read', 'partial-evaluate-before:iso', 'far-from-origin', 'export:spacing-after-tessellation', 'mesh:kept-across-edit', 'partial-evaluate-before', 'spacing1', 'spacing>=2', 'spacing>=3', 'spacing:not-dividing', 'rational', 'trim:freeform', 'trim:spline', 'trim:reversed', 'trim:clockwise', 'trim:non-unit-domain', 'trim:added-after-tessellation', 'trim:setter-replaces', 'tessellator:reinstalled-after-edit', 'container', 'container:tessellator-replaced', 'quad:as-surface-tessellator', 'export:quad-mesh',
+MANDATORY_TAGS = ['trim:sense-detected:first-corner-reflex', 'trim:mesh-read-before-sense-detection', 'container:element-edited-after-mesh-read', 'partial-evaluate-before:iso', 'far-from-origin', 'export:spacing-after-tessellation', 'mesh:kept-across-edit', 'partial-evaluate-before', 'spacing1', 'spacing>=2', 'spacing>=3', 'spacing:not-dividing', 'rational', 'trim:freeform', 'trim:spline', 'trim:reversed', 'trim:clockwise', 'trim:non-unit-domain', 'trim:added-after-tessellation', 'trim:setter-replaces', 'tessellator:reinstalled-after-edit', 'container', 'container:tessellator-replaced', 'quad:as-surface-tessellator', 'export:quad-mesh',
                   'quad', 'non-unit-domain', 'export:file']
 TECHNIQUE = ("runtime monitoring: structural + exact-geometric oracle over every tessellation the workload produces (ids, indices, "
              "orientation, exact area cover, edge incidence, Euler characteristic, vertex = surface(uv)), cell-classification oracle "
@@ -74,7 +74,7 @@ def gen(rng, tier, shard, nshards):
             yield {'kind': 'trim', 'sd': G.rand_shape(rng, 2, dim=3, clamped_only=True, maxextra=2, maxdeg=3, pcls='uniform',
                                                       normalize=not nonunit, lohi=(0.0, 2.0) if nonunit else None),
                    'seed': rng.randrange(1 << 30), 'n': rng.randint(6, 16 if tier == 'quick' else 30),
-                   'trim': rng.choice(['freeform', 'spline', 'freeform-reversed', 'spline-reversed'])}
+                   'trim': rng.choice(['freeform', 'spline', 'freeform-reversed', 'spline-reversed', 'freeform-detect', 'spline-detect'])}
         if i % 4 == 1:
             yield {'kind': 'container', 'seed': rng.randrange(1 << 30), 'n': rng.randint(3, 9),
                    'shapes': [G.rand_shape(rng, 2, dim=3, clamped_only=True, maxextra=2, maxdeg=3, pcls='uniform')
@@ -554,7 +554,32 @@ def check_trim(case, ctx):
     def P2(x, y):
         return [ua + x * (ub - ua), va + y * (vb - va)]
     cx, cy = rng.uniform(0.4, 0.6), rng.uniform(0.4, 0.6)
-    if kind.startswith('freeform'):
+    detect = kind.endswith('detect')
+    if detect:
+        # (fifth hunt) the sense of the trim is not given but worked out by trimming.fix_trim_curves: a NON-CONVEX loop (an L), started at
+        # any of its vertices, in either orientation - the orientation of the loop decides (counter-clockwise: the inside is trimmed, clockwise: the
+        # inside is kept - what the library answers for every convex loop), not its first corner; half of the time the mesh is read before (reading is not editing the trims)
+        a_, b_ = rng.uniform(0.22, 0.3), rng.uniform(0.22, 0.3)
+        L_ = [(cx - a_, cy - b_), (cx + a_, cy - b_), (cx + a_, cy), (cx, cy), (cx, cy + b_), (cx - a_, cy + b_)]    # counter-clockwise
+        ccw = rng.random() < 0.5
+        if not ccw:
+            L_.reverse()
+            ctx.tag('trim:clockwise')
+        st_ = rng.randrange(6)
+        L_ = L_[st_:] + L_[:st_]
+        poly = [P2(x_, y_) for x_, y_ in L_] + [P2(*L_[0])]
+        ctx.tag('trim:sense-detected', 'trim:sense-detected:first-corner-%s' % ('reflex' if st_ == (2 if ccw else 1) else 'convex'))
+        if kind.startswith('freeform'):
+            trim = freeform.Freeform()
+            trim.evaluate(points=poly)
+        else:
+            trim = BSpline.Curve()
+            trim.degree = 1
+            trim.ctrlpts = poly
+            trim.knotvector = knotvector.generate(1, len(poly))
+            trim.sample_size = 6 * rng.choice([1, 4, 7]) + 1
+        reversed_ = not ccw
+    elif kind.startswith('freeform'):
         m = rng.randint(3, 7)
         angs = sorted(rng.uniform(0, 2 * math.pi) for _ in range(m))
         if max(b - a for a, b in zip(angs, angs[1:] + [angs[0] + 2 * math.pi])) > 2.6:
@@ -577,7 +602,7 @@ def check_trim(case, ctx):
         trim.ctrlpts = cps
         trim.knotvector = knotvector.generate(trim.degree, len(cps))
         trim.sample_size = 40
-    if reversed_:
+    if reversed_ and not detect:
         trim.opt = ['reversed', 1]
     o.sample_size = n
     o.tessellator = tessellate.TrimTessellate()
@@ -602,6 +627,21 @@ def check_trim(case, ctx):
         if not ctx.check(len(o.trims) == 1, 'trim/setter-appends', 'surf.trims = [t] leaves %d trim curves on the surface (the setter is documented to '
                          'set the array of trim curves)' % len(o.trims), what='topology'):
             return
+    if detect:
+        from geomdl import trimming
+        read_first = rng.random() < 0.5
+        if read_first:
+            _ = o.vertices
+            ctx.tag('trim:mesh-read-before-sense-detection')
+        trimming.fix_trim_curves(o)
+        got_sense = [t_.opt_get('reversed') for t_ in o.trims]
+        if not ctx.check(got_sense == [0 if ccw else 1], 'trim/sense-detected-wrong', 'fix_trim_curves on a %s L-shaped loop started at vertex %d%s: '
+                         'senses %r, expected [%d] (the orientation of the loop decides, as it does for convex loops)'
+                         % ('counter-clockwise' if ccw else 'clockwise', st_, ' (mesh read before)' if read_first else '',
+                            got_sense, 0 if ccw else 1), what='trim-cells'):
+            return
+        trim = o.trims[0]
+        o.tessellate()
     if how == 'trims-first':
         o.tessellate()
     V, Fc = o.vertices, o.faces
